@@ -45,6 +45,7 @@ func guarded(c *corr.Ctx, in any, where string, f func()) {
 func Run(c *corr.Ctx) {
 	c.Rule("sequential: every op sequence over {push,pull,close,reset} of a fixed length for capacities 1,2,4 (exhaustive) + random sequences up to 10^4 ops for capacities 1..256 with fill/drain phases, compared line by line (result + cursors + occupancy) with the Lean model; " +
 		"New on sizes 0..1030, 2^k-1, 2^k, 2^k+1, random uint64; blocking Pull woken by Push/Close; " +
+		"ping-pong liveness workload (consumer asleep in Pull, 1..8 producers each pushing one item and waiting with a 2 s watchdog until it was pulled; 10^6 rounds quick, 10^7 thorough; bare ring and Processor); " +
 		"concurrent (black box): 1..8 producers + consumer + closer on the real RingBuffer and on the real Processor, history checked for linearizability to the bounded FIFO (porcupine) and for the direct clauses; " +
 		"deterministic Processor schedules (gated callbacks, injected errors, Close windows; every well-formed schedule of a fixed length over {push, failing push, start, exec, closebegin, closeend} for capacities 1,2 + random ones) compared with the Lean model; non-trivial = more than one operation; distinct = distinct op-line sequences / run configurations")
 	if c.Replay != nil {
@@ -66,6 +67,7 @@ func Run(c *corr.Ctx) {
 			checkBlockingPull(c, size, 1, false)
 			checkBlockingPull(c, size, 1, true)
 		}
+		pingPongs(c, 300000)
 		return
 	}
 	corpus(c)
@@ -110,6 +112,11 @@ func Run(c *corr.Ctx) {
 		}
 	}
 	if stop("blocking-Pull cases") {
+		return
+	}
+	// liveness: ping-pong rounds (each Push races with the consumer going to sleep)
+	pingPongs(c, c.N(1000000, 10000000))
+	if stop("ping-pong liveness workload") {
 		return
 	}
 	// (b) concurrent, black box, on the ring (worker goroutines recover panics)
@@ -201,6 +208,15 @@ func replay(c *corr.Ctx) {
 			panic(err)
 		}
 		checkBlockingPull(c, b.Size, b.Prefill, b.Close)
+	case "pingpong":
+		var pp PingPong
+		if err := json.Unmarshal(c.Replay, &pp); err != nil {
+			panic(err)
+		}
+		for i := 0; i < 3 && !enough(); i++ {
+			q := pp
+			runPingPong(c, &q)
+		}
 	case "new":
 		newSweep(c)
 	default:
